@@ -30,7 +30,7 @@ func init() {
 			if tier == "thorough" {
 				return 400000
 			}
-			return 16000
+			return 60000
 		},
 		Run:      runC14,
 		Required: []string{"requests_parsed", "replies_accepted", "replies_refused", "refused_before_network", "keys_checked_distinct"},
